@@ -292,6 +292,57 @@ fn check_big_containers(ctx: &mut Ctx) {
     ctx.rng = rng;
 }
 
+/// a step of the wrong kind whose spelling coincides with a step of the right kind: a numeric step `.N` on a map that has
+/// the key "N" (and its padded / signed look-alikes), a field step "N" on a list longer than N. Both are type errors;
+/// neither may fall back to the look-alike entry. Also the right-kind neighbours, so that the data is known to be there.
+fn check_kind_confusion(ctx: &mut Ctx) {
+    let mut nums: Vec<usize> = (0..=40).collect();
+    for k in 3..20 {
+        nums.extend([(1usize << k) - 1, 1 << k, (1 << k) + 1]);
+    }
+    nums.extend([99, 100, 101, 255, 299, 300, 301, 999, 1000, 9999, 10_000, 99_999, 100_000, 1 << 31, 1 << 32, (1 << 32) + 1, usize::MAX - 1, usize::MAX]);
+    nums.sort();
+    nums.dedup();
+    let mut m = BTreeMap::new();
+    for (i, n) in nums.iter().enumerate() {
+        m.insert(n.to_string(), Value::Int(5_000_000 + i as i128));
+    }
+    for (i, k) in ["00", "01", "007", "010", "0010", "+1", "-1", "-0", "1.0", " 1", "1 ", "1e1", "0x10", "١٠", "１０", "18446744073709551616", "340282366920938463463374607431768211455"].iter().enumerate() {
+        m.insert(k.to_string(), Value::Int(6_000_000 + i as i128));
+    }
+    let keys: Vec<String> = m.keys().cloned().collect();
+    let list: Vec<Value> = (0..300).map(|i| Value::Int(7_000_000 + i)).collect();
+    let nested = Value::Map([("m".to_string(), Value::Map(m.clone())), ("xs".to_string(), Value::Vec(list.clone()))].into_iter().collect());
+    let facts = Value::Map(
+        [("m".to_string(), Value::Map(m)), ("xs".to_string(), Value::Vec(list)), ("in".to_string(), nested.clone()), ("row".to_string(), Value::Vec(vec![nested]))].into_iter().collect(),
+    );
+    ctx.align();
+    for n in &nums {
+        if !ctx.mine() {
+            continue;
+        }
+        // numeric step on the map (type error), on the list (value / None)
+        check_path(ctx, &facts, "m", &[Step::Idx(*n)], true);
+        check_path(ctx, &facts, "facts", &[Step::Field("m".into()), Step::Idx(*n)], true);
+        check_path(ctx, &facts, "in", &[Step::Field("m".into()), Step::Idx(*n)], false);
+        check_path(ctx, &facts, "row", &[Step::Idx(0), Step::Field("m".into()), Step::Idx(*n)], true);
+        check_path(ctx, &facts, "xs", &[Step::Idx(*n)], false);
+        check_path(ctx, &facts, "m", &[Step::Idx(*n), Step::Idx(0)], false);
+        ctx.hit("kind-confusion:numeric-step-on-map-with-that-key");
+    }
+    for k in &keys {
+        if !ctx.mine() {
+            continue;
+        }
+        // field step spelt like a number on the list (type error), on the map (the entry)
+        check_path(ctx, &facts, "xs", &[Step::Field(k.clone())], false);
+        check_path(ctx, &facts, "row", &[Step::Idx(0), Step::Field("xs".into()), Step::Field(k.clone())], false);
+        check_path(ctx, &facts, "m", &[Step::Field(k.clone())], false);
+        check_path(ctx, &facts, "in", &[Step::Field("m".into()), Step::Field(k.clone())], false);
+        ctx.hit("kind-confusion:field-step-spelt-like-a-number-on-list");
+    }
+}
+
 /// index steps written with leading zeros or many digits, through text only
 fn check_index_spellings(ctx: &mut Ctx) {
     let list: Vec<Value> = (0..12).map(|i| Value::Int(100 + i)).collect();
@@ -568,6 +619,7 @@ fn run(ctx: &mut Ctx) {
     ctx.rng = rng.clone();
     check_long_paths(ctx);
     check_big_containers(ctx);
+    check_kind_confusion(ctx);
     if ctx.shard == 0 {
         check_index_spellings(ctx);
         check_symbol_paths(ctx);
@@ -594,6 +646,10 @@ fn finish(m: &Merged, tier: Tier) -> Finish {
     f.floors.push(floor(format!("long-path length classes (steps / 20) seen: {}", m.prefix_count("long-path:")), m.prefix_count("long-path:") >= 11));
     f.floors.push(floor(format!("lookups in a 4700-key map / a 70 000-element list: {} / {}", m.c("big-containers:map-lookups"), m.c("big-containers:list-lookups")), m.c("big-containers:map-lookups") >= 400 && m.c("big-containers:list-lookups") >= 200));
     f.extras.insert("long_paths".into(), json!(m.prefix_map("long-path:")));
+    f.floors.push(floor(
+        format!("wrong-kind steps with a look-alike entry: numeric step on a map holding that key {} / numeric-looking field step on a list {}", m.c("kind-confusion:numeric-step-on-map-with-that-key"), m.c("kind-confusion:field-step-spelt-like-a-number-on-list")),
+        m.c("kind-confusion:numeric-step-on-map-with-that-key") >= 90 && m.c("kind-confusion:field-step-spelt-like-a-number-on-list") >= 90,
+    ));
     f.extras.insert("paths".into(), json!(m.prefix_map("path:")));
     f.extras.insert("names".into(), json!(m.prefix_map("name:")));
     f.assumptions = vec!["the walker in c10.rs (walk_steps / resolve) is the statement of C10 transcribed; map lookup there is a linear scan with exact string equality".into()];
